@@ -1,5 +1,5 @@
 # replay of a bounded stand-in violation: re-run native/c01_backends.py
 import sys
-print("MZgate(0.6, 0.9) | (q[2], q[0]) of 3 on fock: ('quad', 0, 0.0) = [0.0621, 0.7265], the documented action gives [-0.8669, 0.7054]")
+print("MZgate(0.6, 0.9) | (q[0], q[1]) of 2 after Del | q[0] (indices shifted by one) on fock: raised ValueError: axes don't match array")
 print('REPLAY-VIOLATION')
 sys.exit(1)
